@@ -18,15 +18,19 @@ func TestWorldSchema(t *testing.T) {
 		}
 		w.SetOps(g.Ops())
 		q, _ := g.GenQuery("t1", QueryOpts{Boom: seed%2 == 0, Res: true, Slow: true})
-		v, err := w.Expected(q)
+		v, err := w.Expected(q, nil)
 		if err != nil {
 			t.Fatalf("seed %d query %s: %v", seed, q, err)
 		}
 		for i := range g.Ops() {
 			w.Apply(i, "test")
-			if _, err := w.Expected(q); err != nil {
+			if _, err := w.Expected(q, nil); err != nil {
 				t.Fatalf("seed %d query %s after op %d: %v", seed, q, i, err)
 			}
+		}
+		vq, vars, _ := g.GenVarQuery("t2", QueryOpts{})
+		if _, err := w.Expected(vq, vars); err != nil {
+			t.Fatalf("seed %d var query %s %v: %v", seed, vq, vars, err)
 		}
 		if seed < 3 {
 			b, _ := json.Marshal(v)
